@@ -621,3 +621,987 @@ fn c19_oracle_writers() {
     core::mem::forget(r0);
     core::mem::forget(r1);
 }
+
+// ================================================================================================
+// Part 3 — Token-2022 mint admission
+
+/// number of extension type numbers known to the program (0 = Uninitialized … 27 = PausableAccount)
+const REF_KNOWN_TYPES: u16 = 28;
+const MAXE: usize = 8;
+
+/// outcome of the reference TLV walk (Token-2022 `get_tlv_data_info` semantics, as cited by the code comment):
+/// list of type numbers in order, or malformed
+struct RefWalk {
+    malformed: bool,
+    n: usize,
+    types: [u16; MAXE],
+    /// offset of the value and declared length of each entry
+    value_start: [usize; MAXE],
+    value_len: [usize; MAXE],
+}
+
+/// reference TLV walk over `d`: entries are (type u16 LE, length u16 LE, value[length]); the walk ends at the end of
+/// the buffer, when fewer than 2 bytes remain, or at type 0 (Uninitialized); an unknown type number, a type without
+/// room for its length field, or a value running past the buffer is malformed.
+fn ref_walk(d: &[u8]) -> RefWalk {
+    let mut w = RefWalk { malformed: false, n: 0, types: [0; MAXE], value_start: [0; MAXE], value_len: [0; MAXE] };
+    let len = d.len();
+    let mut cur = 0usize;
+    while cur < len {
+        if len - cur < 2 {
+            return w; // a single trailing byte is padding
+        }
+        let ty = (d[cur] as u16) | ((d[cur + 1] as u16) << 8);
+        if ty >= REF_KNOWN_TYPES {
+            w.malformed = true;
+            return w;
+        }
+        if ty == 0 {
+            return w;
+        }
+        if len - cur < 4 {
+            w.malformed = true;
+            return w;
+        }
+        let l = ((d[cur + 2] as u16) | ((d[cur + 3] as u16) << 8)) as usize;
+        if l > len - cur - 4 {
+            w.malformed = true;
+            return w;
+        }
+        assert!(w.n < MAXE, "harness bound: entries fit MAXE");
+        w.types[w.n] = ty;
+        w.value_start[w.n] = cur + 4;
+        w.value_len[w.n] = l;
+        w.n += 1;
+        cur += 4 + l;
+    }
+    w
+}
+
+/// body of the TLV differential: every TLV area of 0..=T fully symbolic bytes
+fn tlv_types_vs_reference<const T: usize>() -> (bool, usize, usize, usize) {
+    let buf: [u8; T] = kani::any();
+    let n: usize = kani::any();
+    kani::assume(n <= T);
+    let d = &buf[..n];
+    let r = ::whirlpool::util::verif_get_token_extension_types(d);
+    let w = ref_walk(d);
+    match &r {
+        Ok(v) => {
+            assert!(!w.malformed);
+            assert!(v.len() == w.n);
+            let mut i = 0;
+            while i < w.n {
+                assert!(v[i] == w.types[i]);
+                i += 1;
+            }
+        }
+        Err(e) => {
+            assert!(w.malformed);
+            // ProgramError::InvalidAccountData
+            assert!(matches!(e, anchor_lang::error::Error::ProgramError(p) if p.program_error == ProgramError::InvalidAccountData));
+        }
+    }
+    let ok = r.is_ok();
+    core::mem::forget(r);
+    (ok, n, w.n, w.value_len[0])
+}
+
+/// get_token_extension_types (through the verif wrapper) ≡ reference TLV walk on every TLV area of 0..=10 fully
+/// symbolic bytes (so ≤ 2 entries; type numbers known and unknown, lengths fitting and overrunning, every kind of
+/// truncated tail): same verdict (list / malformed) and, when well-formed, the same list of type numbers in order.
+// @verif prop=C19 tier=quick timeout=300
+#[kani::proof]
+#[kani::unwind(4)]
+#[kani::stub(alloc::fmt::format, stub_format)]
+#[kani::stub(<anchor_lang::error::Error as core::convert::From<::whirlpool::errors::ErrorCode>>::from, stub_err_from_code)]
+#[kani::stub(<anchor_lang::error::Error as core::convert::From<anchor_lang::error::ErrorCode>>::from, stub_err_from_anchor_code)]
+fn c19_tlv_types_vs_reference() {
+    let (ok, n, wn, len0) = tlv_types_vs_reference::<10>();
+    kani::cover!(ok && wn == 2 && len0 == 2, "two entries, the first with a value");
+    kani::cover!(!ok && wn == 1, "malformed after one entry");
+    kani::cover!(ok && n == 5 && wn == 1, "single trailing byte tolerated");
+}
+
+/// same on every TLV area of 0..=12 bytes (≤ 3 entries)
+// @verif prop=C19 tier=thorough timeout=900
+#[kani::proof]
+#[kani::unwind(5)]
+#[kani::stub(alloc::fmt::format, stub_format)]
+#[kani::stub(<anchor_lang::error::Error as core::convert::From<::whirlpool::errors::ErrorCode>>::from, stub_err_from_code)]
+#[kani::stub(<anchor_lang::error::Error as core::convert::From<anchor_lang::error::ErrorCode>>::from, stub_err_from_anchor_code)]
+fn c19_tlv_types_vs_reference_12() {
+    let (ok, n, wn, len0) = tlv_types_vs_reference::<12>();
+    kani::cover!(ok && wn == 3, "three entries");
+    kani::cover!(ok && wn == 2 && len0 == 3, "two entries with a value");
+    kani::cover!(!ok && wn == 2, "malformed after two entries");
+    kani::cover!(ok && n == 5 && wn == 1, "single trailing byte tolerated");
+}
+
+use anchor_spl::token_2022::spl_token_2022;
+use anchor_spl::token_interface::Mint as IMint;
+use spl_token_2022::extension::{BaseStateWithExtensions, StateWithExtensions};
+
+/// offset of the TLV area in a Token-2022 mint account: 82-byte base, zero padding up to 165, account-type byte
+const MINT_TLV_START: usize = 166;
+
+// extension type numbers (Token-2022 `ExtensionType`)
+const X_TRANSFER_FEE_CONFIG: u16 = 1;
+const X_MINT_CLOSE_AUTHORITY: u16 = 3;
+const X_CONFIDENTIAL_TRANSFER_MINT: u16 = 4;
+const X_DEFAULT_ACCOUNT_STATE: u16 = 6;
+const X_NON_TRANSFERABLE: u16 = 9;
+const X_INTEREST_BEARING: u16 = 10;
+const X_PERMANENT_DELEGATE: u16 = 12;
+const X_TRANSFER_HOOK: u16 = 14;
+const X_CONFIDENTIAL_TRANSFER_FEE_CONFIG: u16 = 16;
+const X_METADATA_POINTER: u16 = 18;
+const X_TOKEN_METADATA: u16 = 19;
+const X_SCALED_UI_AMOUNT: u16 = 25;
+const X_PAUSABLE: u16 = 26;
+
+/// extensions the program supports without conditions (code comments "supported" / "partially supported")
+fn ref_always_supported(t: u16) -> bool {
+    t == X_TRANSFER_FEE_CONFIG
+        || t == X_INTEREST_BEARING
+        || t == X_TOKEN_METADATA
+        || t == X_METADATA_POINTER
+        || t == X_SCALED_UI_AMOUNT
+        || t == X_CONFIDENTIAL_TRANSFER_MINT
+        || t == X_CONFIDENTIAL_TRANSFER_FEE_CONFIG
+}
+/// extensions accepted only with a token badge (property text: permanent delegate, transfer hook, close authority,
+/// non-default account state, pausability; the freeze authority is a base-mint field and handled separately)
+fn ref_badge_gated(t: u16) -> bool {
+    t == X_PERMANENT_DELEGATE || t == X_TRANSFER_HOOK || t == X_MINT_CLOSE_AUTHORITY || t == X_DEFAULT_ACCOUNT_STATE || t == X_PAUSABLE
+}
+
+/// a Token/Token-2022 mint account image (82-byte base, 83 zero bytes, account type, TLV area of T bytes). It is a
+/// struct of arrays of <= 64 bytes so that CBMC keeps every byte as its own SSA symbol (constants written by the
+/// harness stay constants); the program sees it as one contiguous `&mut [u8]`.
+#[repr(C)]
+struct MintImage<const T: usize> {
+    mint_authority_tag: [u8; 4],
+    mint_authority: [u8; 32],
+    supply: [u8; 8],
+    decimals: u8,
+    is_initialized: u8,
+    freeze_authority_tag: [u8; 4],
+    freeze_authority: [u8; 32],
+    pad_a: [u8; 42],
+    pad_b: [u8; 41],
+    account_type: u8,
+    tlv: [u8; T],
+}
+impl<const T: usize> MintImage<T> {
+    const LEN: usize = MINT_TLV_START + T;
+    /// symbolic base fields and TLV area. Validity predicates (needed for Anchor to deserialize
+    /// `InterfaceAccount<Mint>` at all): is_initialized = 1, COption tags ∈ {0,1}, zero padding, account type = Mint.
+    /// The two COption tags are harness parameters (concrete) so that `Mint::unpack` has no symbolic failure branch.
+    fn any(mint_authority_present: bool, freeze_authority_present: bool) -> Self {
+        assert!(core::mem::size_of::<Self>() == Self::LEN);
+        MintImage {
+            mint_authority_tag: [mint_authority_present as u8, 0, 0, 0],
+            mint_authority: kani::any(),
+            supply: kani::any(),
+            decimals: kani::any(),
+            is_initialized: 1,
+            freeze_authority_tag: [freeze_authority_present as u8, 0, 0, 0],
+            freeze_authority: kani::any(),
+            pad_a: [0; 42],
+            pad_b: [0; 41],
+            account_type: 1,
+            tlv: kani::any(),
+        }
+    }
+    fn freeze_present(&self) -> bool {
+        self.freeze_authority_tag[0] == 1
+    }
+    /// pin entry k to the concrete length `lens[k]` (entries laid out back to back)
+    fn fix_entry_lengths(&mut self, lens: &[u16]) {
+        let mut off = 0usize;
+        let mut k = 0;
+        while k < lens.len() {
+            if off + 4 <= T {
+                self.tlv[off + 2] = lens[k] as u8;
+                self.tlv[off + 3] = (lens[k] >> 8) as u8;
+            }
+            off += 4 + lens[k] as usize;
+            k += 1;
+        }
+    }
+    fn bytes_mut(&mut self) -> &mut [u8] {
+        unsafe { core::slice::from_raw_parts_mut(self as *mut Self as *mut u8, Self::LEN) }
+    }
+}
+
+/// the admission rule, written from the property text and the code comments. Returns (necessary, exact):
+/// `necessary` = what the property demands of every accepted mint; `exact` = the rule the code implements
+/// (adds: a DefaultAccountState extension must be a 1-byte value and, unless it says Initialized, needs a freeze
+/// authority — "as thawing would not be possible").
+fn ref_admission(owner_is_token: bool, is_native_2022: bool, freeze_present: bool, badge: bool, tlv: &[u8]) -> (bool, bool) {
+    if owner_is_token {
+        return (true, true); // plain SPL mint
+    }
+    if is_native_2022 {
+        return (false, false);
+    }
+    if freeze_present && !badge {
+        return (false, false);
+    }
+    let w = ref_walk(tlv);
+    if w.malformed {
+        return (false, false); // truncated TLV or unknown type number
+    }
+    let mut necessary = true;
+    let mut exact = true;
+    let mut seen_default_state = false;
+    let mut i = 0;
+    while i < w.n {
+        let t = w.types[i];
+        if ref_always_supported(t) {
+        } else if ref_badge_gated(t) {
+            if !badge {
+                necessary = false;
+                exact = false;
+            }
+            if t == X_DEFAULT_ACCOUNT_STATE && !seen_default_state {
+                seen_default_state = true;
+                let ok = w.value_len[i] == 1 && (tlv[w.value_start[i]] == 1 || freeze_present);
+                if !ok {
+                    exact = false;
+                }
+            }
+        } else {
+            // NonTransferable, account-side extensions, group / confidential-mint-burn, ...: never
+            necessary = false;
+            exact = false;
+        }
+        i += 1;
+    }
+    (necessary, exact)
+}
+
+/// is_supported_token_mint on a real `InterfaceAccount<Mint>` whose TLV area has T bytes; `lens` = None leaves the
+/// area fully symbolic, Some(l) pins the entry lengths (types, values, tail stay symbolic).
+struct AdmObs {
+    accepted: bool,
+    is_err: bool,
+    badge: bool,
+    is_native: bool,
+    malformed: bool,
+    n: usize,
+    t0: u16,
+    len0: usize,
+}
+
+fn mint_admission_check<const T: usize>(owner_is_token: bool, freeze: bool, lens: Option<&[u16]>) -> AdmObs {
+    let mut img = MintImage::<T>::any(true, freeze);
+    if let Some(l) = lens {
+        img.fix_entry_lengths(l);
+    }
+    let key: [u8; 32] = kani::any();
+    let badge: bool = kani::any();
+    let freeze_present = img.freeze_present();
+    let tlv_copy = img.tlv;
+    let key_pk = Pubkey::new_from_array(key);
+    let owner = if owner_is_token { anchor_spl::token::ID } else { anchor_spl::token_2022::ID };
+    let mut lamports = 1u64;
+    let ai = AccountInfo::new(&key_pk, false, false, &mut lamports, img.bytes_mut(), &owner, false, 0);
+    let mint = match InterfaceAccount::<IMint>::try_from(&ai) {
+        Ok(m) => m,
+        Err(e) => {
+            core::mem::forget(e);
+            panic!("mint image must deserialize");
+        }
+    };
+    let r = ::whirlpool::util::is_supported_token_mint(&mint, badge);
+
+    let is_native = key == spl_token_2022::native_mint::id().to_bytes();
+    let tlv = &tlv_copy[..];
+    let (necessary, exact) = ref_admission(owner_is_token, is_native, freeze_present, badge, tlv);
+    let accepted = matches!(&r, Ok(true));
+    let w = ref_walk(tlv);
+
+    // the code's decision is exactly the rule
+    assert!(accepted == exact);
+    // and what the property demands follows
+    if accepted {
+        assert!(necessary);
+        if !owner_is_token {
+            assert!(!is_native);
+            assert!(badge || !freeze_present);
+            let mut i = 0;
+            while i < w.n {
+                let t = w.types[i];
+                assert!(t != X_NON_TRANSFERABLE && t < REF_KNOWN_TYPES);
+                assert!(ref_always_supported(t) || (badge && ref_badge_gated(t)));
+                i += 1;
+            }
+        }
+    }
+    let is_err = r.is_err();
+    core::mem::forget(r);
+    AdmObs { accepted, is_err, badge, is_native, malformed: w.malformed, n: w.n, t0: w.types[0], len0: w.value_len[0] }
+}
+
+fn adm_covers_2022(o: &AdmObs, freeze: bool) {
+    kani::cover!(o.accepted && o.n >= 2 && o.badge == freeze, "2022 mint with >= 2 extensions accepted");
+    kani::cover!(o.accepted && o.badge && o.n >= 1 && o.t0 == X_TRANSFER_HOOK, "transfer hook accepted with badge");
+    kani::cover!(o.accepted && o.n >= 1 && o.t0 == X_DEFAULT_ACCOUNT_STATE, "default-state accepted");
+    kani::cover!(!o.accepted && o.badge && !o.malformed && o.n >= 1 && o.t0 == X_NON_TRANSFERABLE, "non-transferable rejected despite badge");
+    kani::cover!(o.is_err && o.malformed, "malformed TLV / unknown type is an error");
+    kani::cover!(!o.accepted && o.is_native && o.badge, "native-2022 mint rejected despite badge");
+}
+
+/// is_supported_token_mint(mint, badge) on a real Token-2022 InterfaceAccount<Mint> WITH a freeze authority (key symbolic
+/// incl. the native-2022 mint, badge flag symbolic), 4 TLV entries of lengths [1,0,2,0] + 3 tail bytes, all type
+/// numbers (known and unknown), values and the tail symbolic:
+/// Ok(true) ⇔ not native-2022 ∧ badge ∧ TLV well-formed ∧ every extension on the supported list (badge-gated ones
+/// allowed because badge) ∧ DefaultAccountState is a 1-byte value; NonTransferable / unknown / account-side never.
+// @verif prop=C19 tier=thorough timeout=900 unwindset=memcmp.0:85
+#[kani::proof]
+#[kani::unwind(6)]
+#[kani::stub(alloc::fmt::format, stub_format)]
+#[kani::stub(<anchor_lang::error::Error as core::convert::From<::whirlpool::errors::ErrorCode>>::from, stub_err_from_code)]
+#[kani::stub(<anchor_lang::error::Error as core::convert::From<anchor_lang::error::ErrorCode>>::from, stub_err_from_anchor_code)]
+fn c19_mint_admission_freeze_4_entries() {
+    let o = mint_admission_check::<22>(false, true, Some(&[1, 0, 2, 0]));
+    adm_covers_2022(&o, true);
+}
+
+/// same WITHOUT a freeze authority: Ok(true) ⇔ not native-2022 ∧ TLV well-formed ∧ every extension on the supported
+/// list, the badge-gated ones (PermanentDelegate, TransferHook, MintCloseAuthority, DefaultAccountState, Pausable)
+/// only with badge ∧ DefaultAccountState = 1-byte value "Initialized" (no freeze authority ⇒ could not be thawed).
+// @verif prop=C19 tier=thorough timeout=900 unwindset=memcmp.0:85
+#[kani::proof]
+#[kani::unwind(6)]
+#[kani::stub(alloc::fmt::format, stub_format)]
+#[kani::stub(<anchor_lang::error::Error as core::convert::From<::whirlpool::errors::ErrorCode>>::from, stub_err_from_code)]
+#[kani::stub(<anchor_lang::error::Error as core::convert::From<anchor_lang::error::ErrorCode>>::from, stub_err_from_anchor_code)]
+fn c19_mint_admission_nofreeze_4_entries() {
+    let o = mint_admission_check::<22>(false, false, Some(&[1, 0, 2, 0]));
+    adm_covers_2022(&o, false);
+    kani::cover!(!o.accepted && o.badge && !o.malformed && o.n == 1 && o.t0 == X_DEFAULT_ACCOUNT_STATE && o.len0 == 1 && !o.is_native, "non-initialized default state without freeze authority rejected despite badge");
+}
+
+/// quick-tier size of c19_mint_admission_freeze_4_entries: 2 entries of lengths [1,0] + 3 tail bytes
+// @verif prop=C19 tier=quick timeout=300 unwindset=memcmp.0:85
+#[kani::proof]
+#[kani::unwind(4)]
+#[kani::stub(alloc::fmt::format, stub_format)]
+#[kani::stub(<anchor_lang::error::Error as core::convert::From<::whirlpool::errors::ErrorCode>>::from, stub_err_from_code)]
+#[kani::stub(<anchor_lang::error::Error as core::convert::From<anchor_lang::error::ErrorCode>>::from, stub_err_from_anchor_code)]
+fn c19_mint_admission_freeze_2_entries() {
+    let o = mint_admission_check::<12>(false, true, Some(&[1, 0]));
+    adm_covers_2022(&o, true);
+}
+
+/// quick-tier size of c19_mint_admission_nofreeze_4_entries: 2 entries of lengths [1,0] + 3 tail bytes
+// @verif prop=C19 tier=quick timeout=300 unwindset=memcmp.0:85
+#[kani::proof]
+#[kani::unwind(4)]
+#[kani::stub(alloc::fmt::format, stub_format)]
+#[kani::stub(<anchor_lang::error::Error as core::convert::From<::whirlpool::errors::ErrorCode>>::from, stub_err_from_code)]
+#[kani::stub(<anchor_lang::error::Error as core::convert::From<anchor_lang::error::ErrorCode>>::from, stub_err_from_anchor_code)]
+fn c19_mint_admission_nofreeze_2_entries() {
+    let o = mint_admission_check::<12>(false, false, Some(&[1, 0]));
+    adm_covers_2022(&o, false);
+    kani::cover!(!o.accepted && o.badge && !o.malformed && o.n == 1 && o.t0 == X_DEFAULT_ACCOUNT_STATE && o.len0 == 1 && !o.is_native, "non-initialized default state without freeze authority rejected despite badge");
+}
+
+/// plain SPL Token mint (owner = Token program; same image, freeze authority present, any extension bytes, any key):
+/// always accepted, with or without badge — the rule found in the code ("compatible to initialize_pool /
+/// initialize_reward"); the property text says "only over a plain SPL mint or ...", i.e. no badge needed.
+// @verif prop=C19 tier=quick timeout=300 unwindset=memcmp.0:85
+#[kani::proof]
+#[kani::unwind(4)]
+#[kani::stub(alloc::fmt::format, stub_format)]
+#[kani::stub(<anchor_lang::error::Error as core::convert::From<::whirlpool::errors::ErrorCode>>::from, stub_err_from_code)]
+#[kani::stub(<anchor_lang::error::Error as core::convert::From<anchor_lang::error::ErrorCode>>::from, stub_err_from_anchor_code)]
+fn c19_mint_admission_plain_spl() {
+    let o = mint_admission_check::<8>(true, true, None);
+    kani::cover!(o.accepted && !o.badge, "plain SPL mint accepted without badge");
+    assert!(o.accepted);
+}
+
+// ================================================================================================
+// Part 4 — token badge
+
+/// reference: a token badge counts for (config, mint) iff the account is owned by the Whirlpool program, carries the
+/// TokenBadge discriminator, and records exactly that config and that mint (plus borsh well-formedness of the
+/// 1-byte attribute). That the account sits at the PDA ["token_badge", config, mint] is an Anchor `seeds=` constraint
+/// on the instruction structs (outside this harness).
+fn ref_badge_valid(owner: &[u8; 32], data: &[u8], config: &[u8; 32], mint: &[u8; 32]) -> bool {
+    *owner == ::whirlpool::ID.to_bytes()
+        && data.len() >= 73
+        && data[..8] == *TokenBadge::DISCRIMINATOR
+        && data[8..40] == config[..]
+        && data[40..72] == mint[..]
+        && data[72] <= 1
+}
+
+const BADGE_BUF: usize = 80;
+
+/// is_token_badge_initialized(config, mint, account) over a symbolic account (owner key, 80 data bytes — a TokenBadge
+/// uses the first 73 —, all symbolic) and symbolic config / mint keys: Ok(true) ⇔ owner = program ∧ discriminator ∧ badge.whirlpools_config =
+/// config ∧ badge.token_mint = mint (∧ attribute byte is a bool); a foreign owner gives Ok(false); a program-owned
+/// account that is not a TokenBadge gives Err; another config's or mint's badge gives Ok(false).
+// @verif prop=C19 tier=quick timeout=300
+#[kani::proof]
+#[kani::unwind(34)]
+#[kani::stub(alloc::fmt::format, stub_format)]
+#[kani::stub(<anchor_lang::error::Error as core::convert::From<::whirlpool::errors::ErrorCode>>::from, stub_err_from_code)]
+#[kani::stub(<anchor_lang::error::Error as core::convert::From<anchor_lang::error::ErrorCode>>::from, stub_err_from_anchor_code)]
+fn c19_token_badge_initialized() {
+    let owner: [u8; 32] = kani::any();
+    let mut data: [u8; BADGE_BUF] = kani::any();
+    let n: usize = BADGE_BUF;
+    let config: [u8; 32] = kani::any();
+    let mint: [u8; 32] = kani::any();
+    let key = any_key();
+    let image = data;
+    let owner_pk = Pubkey::new_from_array(owner);
+    let mut lamports = 1u64;
+    let ai = AccountInfo::new(&key, false, false, &mut lamports, &mut data[..n], &owner_pk, false, 0);
+    let acc = UncheckedAccount::try_from(&ai);
+    let r = ::whirlpool::util::is_token_badge_initialized(Pubkey::new_from_array(config), Pubkey::new_from_array(mint), &acc);
+    let valid = ref_badge_valid(&owner, &image[..n], &config, &mint);
+    kani::cover!(matches!(&r, Ok(true)), "badge accepted");
+    kani::cover!(matches!(&r, Ok(false)) && owner == ::whirlpool::ID.to_bytes(), "program-owned badge of another config/mint");
+    kani::cover!(matches!(&r, Ok(false)) && owner != ::whirlpool::ID.to_bytes(), "foreign owner");
+    kani::cover!(r.is_err(), "program-owned non-badge");
+    assert!(matches!(&r, Ok(true)) == valid);
+    if owner != ::whirlpool::ID.to_bytes() {
+        assert!(matches!(&r, Ok(false)));
+    }
+    if let Err(e) = &r {
+        // only for program-owned accounts that do not deserialize as a TokenBadge
+        assert!(owner == ::whirlpool::ID.to_bytes());
+        assert!(n < 73 || image[..8] != *TokenBadge::DISCRIMINATOR || image[72] > 1);
+    }
+    core::mem::forget(r);
+}
+
+// ================================================================================================
+// Part 2 — handler-level spot checks on the Anchor account structs (thorough tier)
+use anchor_lang::{Accounts, AccountsExit, Bumps};
+use std::collections::BTreeSet;
+
+const WP_TICK_SPACING: usize = 41;
+const WP_FEE_RATE: usize = 45;
+const WP_PROTOCOL_FEE_RATE: usize = 47;
+const WP_SQRT_PRICE: usize = 65;
+const WP_MINT_A: usize = 101;
+const WP_MINT_B: usize = 181;
+
+fn rd16(d: &[u8], o: usize) -> u16 {
+    u16::from_le_bytes([d[o], d[o + 1]])
+}
+fn rd128(d: &[u8], o: usize) -> u128 {
+    let mut b = [0u8; 16];
+    b.copy_from_slice(&d[o..o + 16]);
+    u128::from_le_bytes(b)
+}
+fn rdkey(d: &[u8], o: usize) -> [u8; 32] {
+    let mut b = [0u8; 32];
+    b.copy_from_slice(&d[o..o + 32]);
+    b
+}
+
+/// serialized Whirlpool with symbolic config key, tick spacing, fee-tier seed, fee rates, price and mints
+fn any_pool_bytes() -> [u8; Whirlpool::LEN] {
+    let mut d = [0u8; Whirlpool::LEN];
+    d[..8].copy_from_slice(Whirlpool::DISCRIMINATOR);
+    let cfg: [u8; 32] = kani::any();
+    d[8..40].copy_from_slice(&cfg);
+    let small: [u8; 8] = kani::any(); // tick_spacing, fee_tier_index_seed, fee_rate, protocol_fee_rate
+    d[41..49].copy_from_slice(&small);
+    let price: [u8; 16] = kani::any();
+    d[65..81].copy_from_slice(&price);
+    let ma: [u8; 32] = kani::any();
+    d[101..133].copy_from_slice(&ma);
+    let mb: [u8; 32] = kani::any();
+    d[181..213].copy_from_slice(&mb);
+    d
+}
+
+/// (config, pool, authority) instructions that set one of the pool's fee fields: Anchor validation (`try_accounts`
+/// on symbolic account bytes, keys, signer flag) + the real handler on the resulting `Context`; the pool is observed as
+/// the deserialized `Account<Whirlpool>` the handler mutated (Anchor's generic `exit` serialization is not re-run:
+/// it exhausts 14 GB with the 653-byte pool). `$field` = field written, `$max` its bound, `$err` the documented error.
+macro_rules! pool_fee_setter_body {
+    ($accounts:ty, $handler:path, $field:ident, $other:ident, $max:expr, $err:expr) => {{
+        let program_id = ::whirlpool::ID;
+        let cfg_key = any_key();
+        let mut cfg_l = 1u64;
+        let mut cfg_data = any_config_bytes();
+        let wp_key = any_key();
+        let mut wp_l = 1u64;
+        let mut wp_data = any_pool_bytes();
+        let auth_key = any_key();
+        let auth_signer: bool = kani::any();
+        let mut auth_l = 1u64;
+        let mut auth_d = [0u8; 0];
+        let sys = Pubkey::default();
+        let arg: u16 = kani::any();
+        let cfg_ai = AccountInfo::new(&cfg_key, false, false, &mut cfg_l, &mut cfg_data, &program_id, false, 0);
+        let wp_ai = AccountInfo::new(&wp_key, false, true, &mut wp_l, &mut wp_data, &program_id, false, 0);
+        let auth_ai = AccountInfo::new(&auth_key, auth_signer, false, &mut auth_l, &mut auth_d, &sys, false, 0);
+        let accounts = [cfg_ai, wp_ai, auth_ai];
+        let mut slice: &[AccountInfo] = &accounts;
+        let mut bumps = <$accounts as Bumps>::Bumps::default();
+        let mut reallocs = BTreeSet::new();
+        let v = <$accounts>::try_accounts(&program_id, &mut slice, &[], &mut bumps, &mut reallocs);
+        kani::cover!(v.is_ok(), "validation can pass");
+        match v {
+            Ok(mut accs) => {
+                let pre: Whirlpool = (*accs.whirlpool).clone();
+                let r = $handler(Context::new(&program_id, &mut accs, &[], bumps), arg);
+                let post: &Whirlpool = &accs.whirlpool;
+                kani::cover!(r.is_ok() && arg == $max, "setter accepts the maximum");
+                kani::cover!(r.is_err(), "setter rejects");
+                match &r {
+                    Ok(()) => assert!(arg <= $max && post.$field == arg),
+                    Err(e) => assert!(arg > $max && acode(e) == ecode($err) && post.$field == pre.$field),
+                }
+                assert!(post.$other == pre.$other && same_other_pool_fields(post, &pre));
+                if ref_pool_bounds(&pre) {
+                    assert!(ref_pool_bounds(post));
+                }
+                core::mem::forget(r);
+                core::mem::forget(accs);
+            }
+            Err(e) => core::mem::forget(e),
+        }
+    }};
+}
+
+/// set_fee_rate (config, pool, fee authority): Ok ⇔ fee_rate ≤ 60 000; Ok ⇒ stored; Err ⇒ FeeRateMaxExceeded and pool
+/// unchanged; no other bounded pool field touched; pool bounds before ⇒ pool bounds after.
+// @verif prop=C19 tier=thorough timeout=900
+#[kani::proof]
+#[kani::unwind(34)]
+#[kani::stub(alloc::fmt::format, stub_format)]
+#[kani::stub(<anchor_lang::error::Error as core::convert::From<::whirlpool::errors::ErrorCode>>::from, stub_err_from_code)]
+#[kani::stub(<anchor_lang::error::Error as core::convert::From<anchor_lang::error::ErrorCode>>::from, stub_err_from_anchor_code)]
+fn c19_handler_set_fee_rate() {
+    pool_fee_setter_body!(
+        ::whirlpool::instructions::SetFeeRate,
+        ::whirlpool::instructions::set_fee_rate::handler,
+        fee_rate,
+        protocol_fee_rate,
+        REF_MAX_FEE_RATE,
+        ErrorCode::FeeRateMaxExceeded
+    );
+}
+
+/// set_protocol_fee_rate (config, pool, fee authority): Ok ⇔ protocol_fee_rate ≤ 2 500; Ok ⇒ stored; Err ⇒
+/// ProtocolFeeRateMaxExceeded and pool unchanged; no other bounded pool field touched; pool bounds preserved.
+// @verif prop=C19 tier=thorough timeout=900
+#[kani::proof]
+#[kani::unwind(34)]
+#[kani::stub(alloc::fmt::format, stub_format)]
+#[kani::stub(<anchor_lang::error::Error as core::convert::From<::whirlpool::errors::ErrorCode>>::from, stub_err_from_code)]
+#[kani::stub(<anchor_lang::error::Error as core::convert::From<anchor_lang::error::ErrorCode>>::from, stub_err_from_anchor_code)]
+fn c19_handler_set_protocol_fee_rate() {
+    pool_fee_setter_body!(
+        ::whirlpool::instructions::SetProtocolFeeRate,
+        ::whirlpool::instructions::set_protocol_fee_rate::handler,
+        protocol_fee_rate,
+        fee_rate,
+        REF_MAX_PROTOCOL_FEE_RATE,
+        ErrorCode::ProtocolFeeRateMaxExceeded
+    );
+}
+
+/// serialized AdaptiveFeeTier (256 bytes) with every field symbolic
+fn any_adaptive_tier_bytes() -> [u8; AdaptiveFeeTier::LEN] {
+    let mut d = [0u8; AdaptiveFeeTier::LEN];
+    d[..8].copy_from_slice(AdaptiveFeeTier::DISCRIMINATOR);
+    let body: [u8; 120] = kani::any();
+    d[8..128].copy_from_slice(&body);
+    d
+}
+
+/// set_fee_rate_by_delegated_fee_authority (pool, adaptive fee tier, delegated authority): the delegated path goes
+/// through the same bound: Ok ⇔ fee_rate ≤ 60 000, Ok ⇒ stored, Err ⇒ FeeRateMaxExceeded and unchanged, no other
+/// bounded pool field touched, pool bounds preserved.
+// @verif prop=C19 tier=thorough timeout=900
+#[kani::proof]
+#[kani::unwind(34)]
+#[kani::stub(alloc::fmt::format, stub_format)]
+#[kani::stub(<anchor_lang::error::Error as core::convert::From<::whirlpool::errors::ErrorCode>>::from, stub_err_from_code)]
+#[kani::stub(<anchor_lang::error::Error as core::convert::From<anchor_lang::error::ErrorCode>>::from, stub_err_from_anchor_code)]
+fn c19_handler_set_fee_rate_by_delegated_authority() {
+    use ::whirlpool::instructions::SetFeeRateByDelegatedFeeAuthority as Accs;
+    let program_id = ::whirlpool::ID;
+    let wp_key = any_key();
+    let mut wp_l = 1u64;
+    let mut wp_data = any_pool_bytes();
+    let tier_key = any_key();
+    let mut tier_l = 1u64;
+    let mut tier_data = any_adaptive_tier_bytes();
+    let auth_key = any_key();
+    let auth_signer: bool = kani::any();
+    let mut auth_l = 1u64;
+    let mut auth_d = [0u8; 0];
+    let sys = Pubkey::default();
+    let arg: u16 = kani::any();
+    let wp_ai = AccountInfo::new(&wp_key, false, true, &mut wp_l, &mut wp_data, &program_id, false, 0);
+    let tier_ai = AccountInfo::new(&tier_key, false, false, &mut tier_l, &mut tier_data, &program_id, false, 0);
+    let auth_ai = AccountInfo::new(&auth_key, auth_signer, false, &mut auth_l, &mut auth_d, &sys, false, 0);
+    let accounts = [wp_ai, tier_ai, auth_ai];
+    let mut slice: &[AccountInfo] = &accounts;
+    let mut bumps = <Accs as Bumps>::Bumps::default();
+    let mut reallocs = BTreeSet::new();
+    let v = Accs::try_accounts(&program_id, &mut slice, &[], &mut bumps, &mut reallocs);
+    kani::cover!(v.is_ok(), "validation can pass");
+    match v {
+        Ok(mut accs) => {
+            let pre: Whirlpool = (*accs.whirlpool).clone();
+            let r = ::whirlpool::instructions::set_fee_rate_by_delegated_fee_authority::handler(Context::new(&program_id, &mut accs, &[], bumps), arg);
+            let post: &Whirlpool = &accs.whirlpool;
+            kani::cover!(r.is_ok() && arg == 60_000, "delegated setter accepts the maximum");
+            kani::cover!(r.is_err(), "delegated setter rejects");
+            match &r {
+                Ok(()) => assert!(arg <= REF_MAX_FEE_RATE && post.fee_rate == arg),
+                Err(e) => assert!(arg > REF_MAX_FEE_RATE && acode(e) == ecode(ErrorCode::FeeRateMaxExceeded) && post.fee_rate == pre.fee_rate),
+            }
+            assert!(post.protocol_fee_rate == pre.protocol_fee_rate && same_other_pool_fields(post, &pre));
+            if ref_pool_bounds(&pre) {
+                assert!(ref_pool_bounds(post));
+            }
+            core::mem::forget(r);
+            core::mem::forget(accs);
+        }
+        Err(e) => core::mem::forget(e),
+    }
+}
+
+/// set_default_fee_rate (config, fee tier, authority) on the real Anchor struct + handler: Ok ⇔ rate ≤ 60 000,
+/// Ok ⇒ stored, Err ⇒ FeeRateMaxExceeded and unchanged; tick_spacing and config binding untouched.
+// @verif prop=C19 tier=thorough timeout=900
+#[kani::proof]
+#[kani::unwind(34)]
+#[kani::stub(alloc::fmt::format, stub_format)]
+#[kani::stub(<anchor_lang::error::Error as core::convert::From<::whirlpool::errors::ErrorCode>>::from, stub_err_from_code)]
+#[kani::stub(<anchor_lang::error::Error as core::convert::From<anchor_lang::error::ErrorCode>>::from, stub_err_from_anchor_code)]
+fn c19_handler_set_default_fee_rate() {
+    use ::whirlpool::instructions::SetDefaultFeeRate as Accs;
+    let program_id = ::whirlpool::ID;
+    let cfg_key = any_key();
+    let mut cfg_l = 1u64;
+    let mut cfg_data = any_config_bytes();
+    let ft_key = any_key();
+    let mut ft_l = 1u64;
+    let mut ft_data = [0u8; FeeTier::LEN];
+    ft_data[..8].copy_from_slice(FeeTier::DISCRIMINATOR);
+    let body: [u8; 36] = kani::any();
+    ft_data[8..44].copy_from_slice(&body);
+    let auth_key = any_key();
+    let auth_signer: bool = kani::any();
+    let mut auth_l = 1u64;
+    let mut auth_d = [0u8; 0];
+    let sys = Pubkey::default();
+    let arg: u16 = kani::any();
+    let cfg_ai = AccountInfo::new(&cfg_key, false, false, &mut cfg_l, &mut cfg_data, &program_id, false, 0);
+    let ft_ai = AccountInfo::new(&ft_key, false, true, &mut ft_l, &mut ft_data, &program_id, false, 0);
+    let auth_ai = AccountInfo::new(&auth_key, auth_signer, false, &mut auth_l, &mut auth_d, &sys, false, 0);
+    let accounts = [cfg_ai, ft_ai, auth_ai];
+    let mut slice: &[AccountInfo] = &accounts;
+    let mut bumps = <Accs as Bumps>::Bumps::default();
+    let mut reallocs = BTreeSet::new();
+    let v = Accs::try_accounts(&program_id, &mut slice, &[], &mut bumps, &mut reallocs);
+    kani::cover!(v.is_ok(), "validation can pass");
+    match v {
+        Ok(mut accs) => {
+            let pre: FeeTier = (*accs.fee_tier).clone();
+            let r = ::whirlpool::instructions::set_default_fee_rate::handler(Context::new(&program_id, &mut accs, &[], bumps), arg);
+            let post: &FeeTier = &accs.fee_tier;
+            kani::cover!(r.is_ok() && arg == 60_000, "tier setter accepts the maximum");
+            kani::cover!(r.is_err(), "tier setter rejects");
+            match &r {
+                Ok(()) => assert!(arg <= REF_MAX_FEE_RATE && post.default_fee_rate == arg),
+                Err(e) => assert!(arg > REF_MAX_FEE_RATE && acode(e) == ecode(ErrorCode::FeeRateMaxExceeded) && post.default_fee_rate == pre.default_fee_rate),
+            }
+            assert!(post.tick_spacing == pre.tick_spacing && post.whirlpools_config == pre.whirlpools_config);
+            core::mem::forget(r);
+            core::mem::forget(accs);
+        }
+        Err(e) => core::mem::forget(e),
+    }
+}
+
+/// initialize_fee_tier handler on a hand-built `Context<InitializeFeeTier>` (the `init` constraint = System-program CPI
+/// and the `seeds=` PDA are outside; the fee-tier account is the zeroed program-owned account `init` produces):
+/// Ok ⇔ tick_spacing ≠ 0 ∧ default_fee_rate ≤ 60 000; Ok ⇒ the tier stores exactly these and the config key.
+// @verif prop=C19 tier=thorough timeout=900
+#[kani::proof]
+#[kani::unwind(34)]
+#[kani::stub(alloc::fmt::format, stub_format)]
+#[kani::stub(<anchor_lang::error::Error as core::convert::From<::whirlpool::errors::ErrorCode>>::from, stub_err_from_code)]
+#[kani::stub(<anchor_lang::error::Error as core::convert::From<anchor_lang::error::ErrorCode>>::from, stub_err_from_anchor_code)]
+fn c19_handler_initialize_fee_tier() {
+    use ::whirlpool::instructions::InitializeFeeTier as Accs;
+    let program_id = ::whirlpool::ID;
+    let cfg_key = any_key();
+    let mut cfg_l = 1u64;
+    let mut cfg_data = any_config_bytes();
+    let ft_key = any_key();
+    let mut ft_l = 1u64;
+    let mut ft_data = [0u8; FeeTier::LEN];
+    let f_key = any_key();
+    let mut f_l = 1u64;
+    let mut f_d = [0u8; 0];
+    let a_key = any_key();
+    let mut a_l = 1u64;
+    let mut a_d = [0u8; 0];
+    let sys = anchor_lang::system_program::ID;
+    let mut s_l = 1u64;
+    let mut s_d = [0u8; 0];
+    let native_loader = Pubkey::new_from_array([3u8; 32]);
+    let tick_spacing: u16 = kani::any();
+    let rate: u16 = kani::any();
+    let cfg_ai = AccountInfo::new(&cfg_key, false, false, &mut cfg_l, &mut cfg_data, &program_id, false, 0);
+    let ft_ai = AccountInfo::new(&ft_key, false, true, &mut ft_l, &mut ft_data, &program_id, false, 0);
+    let f_ai = AccountInfo::new(&f_key, true, true, &mut f_l, &mut f_d, &sys, false, 0);
+    let a_ai = AccountInfo::new(&a_key, true, false, &mut a_l, &mut a_d, &sys, false, 0);
+    let s_ai = AccountInfo::new(&sys, false, false, &mut s_l, &mut s_d, &native_loader, true, 0);
+    let mut accs = Accs {
+        config: Box::new(Account::try_from(&cfg_ai).unwrap()),
+        fee_tier: Account::try_from_unchecked(&ft_ai).unwrap(),
+        funder: Signer::try_from(&f_ai).unwrap(),
+        fee_authority: Signer::try_from(&a_ai).unwrap(),
+        system_program: Program::try_from(&s_ai).unwrap(),
+    };
+    let bumps = <Accs as Bumps>::Bumps::default();
+    let r = ::whirlpool::instructions::initialize_fee_tier::handler(Context::new(&program_id, &mut accs, &[], bumps), tick_spacing, rate);
+    kani::cover!(r.is_ok() && rate == 60_000, "tier created at the maximum fee");
+    kani::cover!(r.is_err() && tick_spacing != 0, "tier creation rejected for the fee");
+    match &r {
+        Ok(()) => {
+            assert!(tick_spacing != 0 && rate <= REF_MAX_FEE_RATE);
+            assert!(accs.fee_tier.tick_spacing == tick_spacing && accs.fee_tier.default_fee_rate == rate);
+            assert!(accs.fee_tier.whirlpools_config == cfg_key);
+        }
+        Err(e) => {
+            if tick_spacing == 0 {
+                assert!(acode(e) == ecode(ErrorCode::InvalidTickSpacing));
+            } else {
+                assert!(rate > REF_MAX_FEE_RATE && acode(e) == ecode(ErrorCode::FeeRateMaxExceeded));
+            }
+        }
+    }
+    core::mem::forget(r);
+    core::mem::forget(accs);
+}
+
+/// set_adaptive_fee_constants (pool, config, oracle, fee authority) on the real Anchor struct + handler with
+/// `validate_constants` as the recording stub (see (V)/(W)): the constants reaching the oracle are validated against
+/// the POOL's tick_spacing (the oracle is bound to the pool by has_one); Ok ⇒ validated ∧ stored ∧ variables reset;
+/// Err ⇒ oracle constants unchanged.
+// @verif prop=C19 tier=thorough timeout=900
+#[kani::proof]
+#[kani::unwind(34)]
+#[kani::stub(alloc::fmt::format, stub_format)]
+#[kani::stub(<anchor_lang::error::Error as core::convert::From<::whirlpool::errors::ErrorCode>>::from, stub_err_from_code)]
+#[kani::stub(<anchor_lang::error::Error as core::convert::From<anchor_lang::error::ErrorCode>>::from, stub_err_from_anchor_code)]
+#[kani::stub(::whirlpool::state::oracle::AdaptiveFeeConstants::validate_constants, vc::stub_validate_constants)]
+fn c19_handler_set_adaptive_fee_constants() {
+    use ::whirlpool::instructions::SetAdaptiveFeeConstants as Accs;
+    let program_id = ::whirlpool::ID;
+    let wp_key = any_key();
+    let mut wp_l = 1u64;
+    let mut wp_data = any_pool_bytes();
+    let pool_ts = rd16(&wp_data, WP_TICK_SPACING);
+    let cfg_key = any_key();
+    let mut cfg_l = 1u64;
+    let mut cfg_data = any_config_bytes();
+    let or_key = any_key();
+    let mut or_l = 1u64;
+    let mut or_data = [0u8; Oracle::LEN];
+    or_data[..8].copy_from_slice(Oracle::DISCRIMINATOR);
+    let or_body: [u8; 118] = kani::any(); // pool key, timestamp, constants, variables
+    or_data[8..126].copy_from_slice(&or_body);
+    or_data[66..82].copy_from_slice(&[0u8; 16]); // constants.reserved is always written as zero
+    let auth_key = any_key();
+    let auth_signer: bool = kani::any();
+    let mut auth_l = 1u64;
+    let mut auth_d = [0u8; 0];
+    let sys = Pubkey::default();
+    let a: (Option<u16>, Option<u16>, Option<u16>, Option<u32>, Option<u32>, Option<u16>, Option<u16>) =
+        (kani::any(), kani::any(), kani::any(), kani::any(), kani::any(), kani::any(), kani::any());
+    let wp_ai = AccountInfo::new(&wp_key, false, false, &mut wp_l, &mut wp_data, &program_id, false, 0);
+    let cfg_ai = AccountInfo::new(&cfg_key, false, false, &mut cfg_l, &mut cfg_data, &program_id, false, 0);
+    let or_ai = AccountInfo::new(&or_key, false, true, &mut or_l, &mut or_data, &program_id, false, 0);
+    let auth_ai = AccountInfo::new(&auth_key, auth_signer, false, &mut auth_l, &mut auth_d, &sys, false, 0);
+    let accounts = [wp_ai, cfg_ai, or_ai, auth_ai];
+    let mut slice: &[AccountInfo] = &accounts;
+    let mut bumps = <Accs as Bumps>::Bumps::default();
+    let mut reallocs = BTreeSet::new();
+    let v = Accs::try_accounts(&program_id, &mut slice, &[], &mut bumps, &mut reallocs);
+    kani::cover!(v.is_ok(), "validation can pass");
+    match v {
+        Ok(mut accs) => {
+            let pre = const_tuple(&accs.oracle.load().unwrap().adaptive_fee_constants);
+            let r = ::whirlpool::instructions::set_adaptive_fee_constants::handler(
+                Context::new(&program_id, &mut accs, &[], bumps), a.0, a.1, a.2, a.3, a.4, a.5, a.6);
+            let o = accs.oracle.load().unwrap();
+            let post = const_tuple(&o.adaptive_fee_constants);
+            let want: CTuple = (a.0.unwrap_or(pre.0), a.1.unwrap_or(pre.1), a.2.unwrap_or(pre.2), a.3.unwrap_or(pre.3), a.4.unwrap_or(pre.4), a.5.unwrap_or(pre.5), a.6.unwrap_or(pre.6));
+            kani::cover!(r.is_ok(), "constants updated");
+            kani::cover!(r.is_err() && vc::calls() == 1, "constants rejected by validation");
+            match &r {
+                Ok(()) => {
+                    assert!(vc::calls() == 1 && vc::ret() && vc::args() == with_ts(pool_ts, want));
+                    assert!(post == want && want != pre);
+                    assert!(o.adaptive_fee_variables == AdaptiveFeeVariables::default());
+                    assert!({ o.whirlpool } == wp_key);
+                }
+                Err(e) => {
+                    assert!(post == pre);
+                    if vc::calls() == 1 {
+                        assert!(!vc::ret() && vc::args() == with_ts(pool_ts, want) && acode(e) == ecode(ErrorCode::InvalidAdaptiveFeeConstants));
+                    } else {
+                        assert!(vc::calls() == 0 && want == pre && acode(e) == ecode(ErrorCode::AdaptiveFeeConstantsUnchanged));
+                    }
+                }
+            }
+            core::mem::forget(r);
+        }
+        Err(e) => core::mem::forget(e),
+    }
+}
+
+/// an 82-byte mint without extensions (struct of small arrays for the same reason as `MintImage`)
+#[repr(C)]
+struct MintBaseImage {
+    mint_authority_tag: [u8; 4],
+    mint_authority: [u8; 32],
+    supply: [u8; 8],
+    decimals: u8,
+    is_initialized: u8,
+    freeze_authority_tag: [u8; 4],
+    freeze_authority: [u8; 32],
+}
+impl MintBaseImage {
+    fn any(mint_authority_present: bool, freeze_authority_present: bool) -> Self {
+        assert!(core::mem::size_of::<Self>() == 82);
+        MintBaseImage {
+            mint_authority_tag: [mint_authority_present as u8, 0, 0, 0],
+            mint_authority: kani::any(),
+            supply: kani::any(),
+            decimals: kani::any(),
+            is_initialized: 1,
+            freeze_authority_tag: [freeze_authority_present as u8, 0, 0, 0],
+            freeze_authority: kani::any(),
+        }
+    }
+    fn bytes_mut(&mut self) -> &mut [u8] {
+        unsafe { core::slice::from_raw_parts_mut(self as *mut Self as *mut u8, 82) }
+    }
+}
+
+/// verify_supported_token_mint (the gate called by initialize_pool_v2 / initialize_pool_with_adaptive_fee /
+/// initialize_reward_v2) on an extension-less Token-2022 mint WITH a freeze authority and a symbolic badge account
+/// (owner, 80 data bytes) for symbolic config / mint keys: Ok ⇔ the badge account is program-owned, has the TokenBadge
+/// discriminator and records exactly this config and this mint (and the mint is not native-2022); a missing badge, a
+/// badge of another config or of another mint ⇒ UnsupportedTokenMint.
+// @verif prop=C19 tier=thorough timeout=900
+#[kani::proof]
+#[kani::unwind(34)]
+#[kani::stub(alloc::fmt::format, stub_format)]
+#[kani::stub(<anchor_lang::error::Error as core::convert::From<::whirlpool::errors::ErrorCode>>::from, stub_err_from_code)]
+#[kani::stub(<anchor_lang::error::Error as core::convert::From<anchor_lang::error::ErrorCode>>::from, stub_err_from_anchor_code)]
+fn c19_verify_mint_needs_matching_badge() {
+    let mut mint_img = MintBaseImage::any(true, true); // freeze authority present
+    let mint_key: [u8; 32] = kani::any();
+    let config: [u8; 32] = kani::any();
+    let badge_owner: [u8; 32] = kani::any();
+    let mut badge_data: [u8; BADGE_BUF] = kani::any();
+    let badge_key = any_key();
+    let badge_image = badge_data;
+    let mint_pk = Pubkey::new_from_array(mint_key);
+    let t22 = anchor_spl::token_2022::ID;
+    let mut m_l = 1u64;
+    let mint_ai = AccountInfo::new(&mint_pk, false, false, &mut m_l, mint_img.bytes_mut(), &t22, false, 0);
+    let mint = InterfaceAccount::<IMint>::try_from(&mint_ai).unwrap();
+    let badge_owner_pk = Pubkey::new_from_array(badge_owner);
+    let mut b_l = 1u64;
+    let badge_ai = AccountInfo::new(&badge_key, false, false, &mut b_l, &mut badge_data[..], &badge_owner_pk, false, 0);
+    let badge = UncheckedAccount::try_from(&badge_ai);
+    let r = ::whirlpool::util::verify_supported_token_mint(&mint, Pubkey::new_from_array(config), &badge);
+    let valid = ref_badge_valid(&badge_owner, &badge_image[..], &config, &mint_key);
+    let is_native = mint_key == spl_token_2022::native_mint::id().to_bytes();
+    kani::cover!(r.is_ok(), "freeze-authority mint admitted with its badge");
+    kani::cover!(r.is_err() && badge_owner == ::whirlpool::ID.to_bytes() && badge_image[..8] == *TokenBadge::DISCRIMINATOR && badge_image[72] == 0 && badge_image[8..40] == config[..], "badge of another mint rejected");
+    kani::cover!(r.is_err() && badge_owner == ::whirlpool::ID.to_bytes() && badge_image[..8] == *TokenBadge::DISCRIMINATOR && badge_image[72] == 0 && badge_image[40..72] == mint_key[..], "badge of another config rejected");
+    assert!(r.is_ok() == (valid && !is_native));
+    if let Err(e) = &r {
+        if badge_owner != ::whirlpool::ID.to_bytes() {
+            assert!(acode(e) == ecode(ErrorCode::UnsupportedTokenMint));
+        }
+    }
+    core::mem::forget(r);
+}
+
+/// reference TLV walk ≡ spl-token-2022's own iterator (`StateWithExtensions::get_extension_types`) on a real mint image
+/// with 4 entries of lengths [1,0,2,0] + 3 tail bytes (types, values, tail symbolic): same list / same malformed
+/// verdict. Ties the harness-written reference to the library the Token-2022 program itself uses.
+// @verif prop=C19 tier=thorough timeout=900 unwindset=memcmp.0:85
+#[kani::proof]
+#[kani::unwind(7)]
+#[kani::stub(alloc::fmt::format, stub_format)]
+fn c19_ref_walk_vs_spl_iterator() {
+    let mut img = MintImage::<22>::any(true, true);
+    img.fix_entry_lengths(&[1, 0, 2, 0]);
+    let tlv_copy = img.tlv;
+    let st = StateWithExtensions::<spl_token_2022::state::Mint>::unpack(img.bytes_mut()).unwrap();
+    let r = st.get_extension_types();
+    let w = ref_walk(&tlv_copy[..]);
+    kani::cover!(r.is_ok() && w.n == 4, "four extensions listed");
+    kani::cover!(r.is_err(), "malformed");
+    match &r {
+        Ok(v) => {
+            assert!(!w.malformed && v.len() == w.n);
+            let mut i = 0;
+            while i < w.n {
+                assert!(u16::from(v[i]) == w.types[i]);
+                i += 1;
+            }
+        }
+        Err(_) => assert!(w.malformed),
+    }
+    core::mem::forget(r);
+}
+
+/// vacuity twin: must FAIL — a Token-2022 mint carrying a badge-gated extension is reachable-accepted, so claiming
+/// "never accepted" must be refuted
+// @verif prop=C19 tier=quick timeout=300 twin unwindset=memcmp.0:85
+#[kani::proof]
+#[kani::unwind(3)]
+#[kani::stub(alloc::fmt::format, stub_format)]
+#[kani::stub(<anchor_lang::error::Error as core::convert::From<::whirlpool::errors::ErrorCode>>::from, stub_err_from_code)]
+#[kani::stub(<anchor_lang::error::Error as core::convert::From<anchor_lang::error::ErrorCode>>::from, stub_err_from_anchor_code)]
+fn c19_twin_must_fail() {
+    let o = mint_admission_check::<8>(false, false, Some(&[1]));
+    let bad = o.accepted && o.n >= 1 && o.t0 == X_TRANSFER_HOOK;
+    assert!(!bad, "twin: a transfer-hook mint with badge is accepted, this must be reported");
+}
+
+/// is_supported_token_mint on a Token-2022 mint without freeze authority whose whole TLV area (12 bytes, so ≤ 3
+/// entries) is symbolic, lengths included: type numbers known/unknown, lengths fitting/overrunning, truncated tails.
+/// Same ⇔ as c19_mint_admission_nofreeze_4_entries.
+// @verif prop=C19 tier=thorough timeout=900 unwindset=memcmp.0:85
+#[kani::proof]
+#[kani::unwind(6)]
+#[kani::stub(alloc::fmt::format, stub_format)]
+#[kani::stub(<anchor_lang::error::Error as core::convert::From<::whirlpool::errors::ErrorCode>>::from, stub_err_from_code)]
+#[kani::stub(<anchor_lang::error::Error as core::convert::From<anchor_lang::error::ErrorCode>>::from, stub_err_from_anchor_code)]
+fn c19_mint_admission_symbolic_tlv() {
+    let o = mint_admission_check::<12>(false, false, None);
+    kani::cover!(o.accepted && o.n == 3, "three extensions accepted");
+    kani::cover!(o.accepted && o.n == 1 && o.len0 == 7, "one extension with a 7-byte value and a trailing byte accepted");
+    kani::cover!(o.is_err && o.malformed, "malformed TLV is an error");
+}
